@@ -286,8 +286,8 @@ def hxl(l):
     return ",".join(hx(x) for x in l) if l else "~"
 
 
-def model_line(case, repaired, lim=0):
-    return "%s %d %d %s\n" % ("c" if case["mode"] == "c" else "n", int(repaired), int(lim), hexs(case["input"]))
+def model_line(case, repaired, lim="0"):
+    return "%s %d %s %s\n" % ("c" if case["mode"] == "c" else "n", int(repaired), lim, hexs(case["input"]))
 
 
 def parse_model(line, mode):
@@ -339,7 +339,7 @@ def longest_run(hosts_expanded_model):
 
 # ------------------------------------------------------------------ judging one batch of cases
 class Judge:
-    def __init__(self, ctx, script, pdsh, repaired, lim=0):
+    def __init__(self, ctx, script, pdsh, repaired, lim="0"):
         self.ctx, self.script, self.pdsh, self.repaired, self.lim = ctx, script, pdsh, repaired, lim
         self.workdir = os.path.join(ctx.scratch, "dshbak-d")
         os.makedirs(self.workdir, exist_ok=True)
@@ -468,6 +468,8 @@ class Judge:
                     sig = "header-refused:empty-stem"
                 elif "Too many hosts" in info and len(tags) > 16384:
                     sig = "header-refused:too-many-hosts-in-range"
+                elif max([seg.count(",") + 1 for seg in re.findall(r"\[([^\]]*)\]", h)] or [0]) > 10240:
+                    sig = "header-refused:too-many-ranges"
                 else:
                     sig = "header-refused"
                 v.append(("offender", sig, "pdsh refuses the header `%s` dshbak printed: %s" % (h[:200], info)))
@@ -527,6 +529,10 @@ def case_json(c):
 
 
 def case_from_json(j):
+    if "input_hex" not in j and "odd_hosts" in j:
+        n = int(j["odd_hosts"])
+        return {"stream": "plain", "mode": "c", "hash_seed": 5, "recs": [("n%d" % i, "x") for i in range(1, 2 * n, 2)],
+                "input": "".join("n%d: x\n" % i for i in range(1, 2 * n, 2)).encode()}
     if "input_hex" not in j and "hosts" in j:        # the long-run case is stored by its size only
         n = int(j["hosts"])
         return {"stream": "plain", "mode": "c", "hash_seed": 3, "recs": [("n%d" % i, "x") for i in range(1, n + 1)],
@@ -604,7 +610,13 @@ def run(ctx):
                            stdout=subprocess.PIPE, stderr=subprocess.PIPE)
         m = re.search(rb"^n\[1-(\d+)([,\]])", p.stdout, re.M)
         lim = int(m.group(1)) if (m and m.group(2) == b",") else 0
-        judge = Judge(ctx, script, pdsh, repaired, lim)
+        # F19-MANYRANGES repaired?  the number of elements in the first bracket of a 10300-element header
+        p = subprocess.run(["perl", script, "-c"], input="".join("n%d: x\n" % i for i in range(1, 20600, 2)).encode(),
+                           stdout=subprocess.PIPE, stderr=subprocess.PIPE)
+        m = re.search(rb"^n\[([0-9,]*)\](.?)", p.stdout, re.M)
+        mr = (m.group(1).count(b",") + 1) if (m and m.group(2) == b",") else 0
+        limits = "%d/%d" % (lim, mr)
+        judge = Judge(ctx, script, pdsh, repaired, limits)
         if ctx.replay:
             j = json.load(open(ctx.replay))
             cases = [case_from_json(j["case"]["case"] if "case" in j.get("case", {}) else j["case"])]
@@ -621,7 +633,8 @@ def run(ctx):
         dist = {"modes": {}, "streams": {}, "hosts_per_case": {}, "headers_expanded_by_pdsh": 0,
                 "bracketed_headers": 0, "process_launches": 0, "script_form": {0: "unchanged", 1: "D21-repaired", 2: "EMPTYSTEM-repaired",
                                                          3: "D21+EMPTYSTEM-repaired"}[repaired] +
-                               ("+LONGRUN-limit-%d" % lim if lim else "")}
+                               ("+LONGRUN-limit-%d" % lim if lim else "") +
+                               ("+MANYRANGES-limit-%d" % mr if mr else "")}
         distinct = set()
         nshrunk = 0
         CH = 400
@@ -662,7 +675,20 @@ def run(ctx):
                 recs = [("n%d" % i, "x") for i in range(1, nrun + 1)]
                 lc = {"stream": "plain", "mode": "c", "recs": recs, "hash_seed": 3,
                       "input": "".join("n%d: x\n" % i for i in range(1, nrun + 1)).encode()}
-                res = judge.judge([lc], use_model=(nrun == 16385 and (lim > 0 or not ctx.quick())))[0]
+                res = judge.judge([lc], use_model=(nrun == 16385 and not ctx.quick()))[0]
+                # quick tier: the header model alone (compress of the one group) against the real header
+                if ctx.quick() and res["real"]["rc"] == 0 and len(res["real"]["blocks"]) == 1:
+                    hdr = res["real"]["blocks"][0][0]
+                    ml = ctx.model("dshbak", "h %d %s %s\n" % (repaired, limits, ",".join(hx(t) for t, _ in recs)),
+                                   args=["model"])[0]
+                    groups = [bytes.fromhex(x).decode("latin-1") for x in ml.split("=")[0].split(",")]
+                    if not header_is_perm_of(hdr, groups):
+                        ctx.disagreement("dshbak header model vs scripts/dshbak (long run)",
+                                         "real `%s` model %r" % (hdr[:200], groups[:4]), {"longrun": nrun})
+                    st, hosts = judge.pdsh_cache.get(hdr, ("skip", None))
+                    if st == "ok" and len(hosts) != int(ml.split("=")[1]):
+                        ctx.disagreement("small expander vs pdsh (long run)", "pdsh %d hosts, model %s" %
+                                         (len(hosts), ml.split("=")[1]), {"longrun": nrun})
                 cov["evaluations"] += 1
                 dist["streams"]["longrun"] = dist["streams"].get("longrun", 0) + 1
                 for kind, sig, what in res["verdicts"]:
@@ -672,6 +698,33 @@ def run(ctx):
                                                  "real": [b[0] for b in res["real"]["blocks"]][:3]})
                     else:
                         ctx.disagreement("dshbak model vs scripts/dshbak: " + sig, what, {"longrun": nrun})
+        # F19-MANYRANGES: more than 10240 range elements under one prefix (hostlist.c MAX_RANGES)
+        if not ctx.replay:
+            for nr in ((10241,) if ctx.quick() else (10240, 10241)):
+                recs = [("n%d" % i, "x") for i in range(1, 2 * nr, 2)]
+                lc = {"stream": "plain", "mode": "c", "recs": recs, "hash_seed": 5,
+                      "input": "".join("%s: x\n" % t for t, _ in recs).encode()}
+                if ctx.quick() and mr > 0:
+                    # repaired script, quick tier: the accepted header would have to be expanded by 10241 forks;
+                    # compare the header text with the model here, the pdsh expansion is done in the thorough tier
+                    res = {"real": run_dshbak(script, lc, judge.workdir, 0), "verdicts": []}
+                else:
+                    res = judge.judge([lc], use_model=False)[0]
+                if res["real"]["rc"] == 0 and len(res["real"]["blocks"]) == 1:
+                    hdr = res["real"]["blocks"][0][0]
+                    ml = ctx.model("dshbak", "h %d %s %s\n" % (repaired, limits, ",".join(hx(t) for t, _ in recs)),
+                                   args=["model"])[0]
+                    groups = [bytes.fromhex(x).decode("latin-1") for x in ml.split("=")[0].split(",")]
+                    if not header_is_perm_of(hdr, groups):
+                        ctx.disagreement("dshbak header model vs scripts/dshbak (many ranges)",
+                                         "real `%s...` model `%s...`" % (hdr[:80], groups[0][:80]), {"manyranges": nr})
+                cov["evaluations"] += 1
+                dist["streams"]["manyranges"] = dist["streams"].get("manyranges", 0) + 1
+                for kind, sig, what in res["verdicts"]:
+                    if kind == "offender":
+                        ctx.offender(sig, what[:300], {"case": {"mode": "c", "input": "n1: x, n3: x, .. n%d: x (%d odd numbers, "
+                                                                "identical bodies)" % (2 * nr - 1, nr), "odd_hosts": nr},
+                                                       "real": [b[0][:120] for b in res["real"]["blocks"]][:2]})
         dist["headers_expanded_by_pdsh"] = len(judge.pdsh_cache)
         dist["process_launches"] = judge.launches
         cov["distinct_nontrivial"] = len(distinct)
